@@ -12,12 +12,17 @@
 #else
 #define ABTI_ENABLE_EVENT_INTERFACE 0
 #endif
+#ifdef ABT_VERIF_HOOKS
+#undef ABTI_ENABLE_EVENT_INTERFACE
+#define ABTI_ENABLE_EVENT_INTERFACE 1
+#endif
 
 static inline void ABTI_event_thread_create_impl(ABTI_local *p_local,
                                                  ABTI_thread *p_thread,
                                                  ABTI_thread *p_caller,
                                                  ABTI_pool *p_pool)
 {
+    ABTI_VERIF_EVENT(1, p_thread, p_pool, 0);
 #ifdef ABT_CONFIG_USE_DEBUG_LOG
     ABTI_log_debug_thread("create", p_thread);
 #endif
@@ -32,6 +37,7 @@ static inline void ABTI_event_thread_join_impl(ABTI_local *p_local,
                                                ABTI_thread *p_thread,
                                                ABTI_thread *p_caller)
 {
+    ABTI_VERIF_EVENT(2, p_thread, p_caller, 0);
 #ifdef ABT_CONFIG_USE_DEBUG_LOG
     ABTI_log_debug_thread("join", p_thread);
 #endif
@@ -46,6 +52,7 @@ static inline void ABTI_event_thread_free_impl(ABTI_local *p_local,
                                                ABTI_thread *p_thread,
                                                ABTI_thread *p_caller)
 {
+    ABTI_VERIF_EVENT(3, p_thread, p_caller, 0);
 #ifdef ABT_CONFIG_USE_DEBUG_LOG
     ABTI_log_debug_thread("free", p_thread);
 #endif
@@ -61,6 +68,7 @@ static inline void ABTI_event_thread_revive_impl(ABTI_local *p_local,
                                                  ABTI_thread *p_caller,
                                                  ABTI_pool *p_pool)
 {
+    ABTI_VERIF_EVENT(4, p_thread, p_pool, 0);
 #ifdef ABT_CONFIG_USE_DEBUG_LOG
     ABTI_log_debug_thread("revive", p_thread);
 #endif
@@ -76,6 +84,7 @@ static inline void ABTI_event_thread_run_impl(ABTI_xstream *p_local_xstream,
                                               ABTI_thread *p_prev,
                                               ABTI_thread *p_parent)
 {
+    ABTI_VERIF_EVENT(5, p_thread, p_prev, 0);
 #ifdef ABT_CONFIG_USE_DEBUG_LOG
     ABTI_log_debug_thread("run", p_thread);
 #endif
@@ -90,6 +99,7 @@ static inline void ABTI_event_thread_finish_impl(ABTI_xstream *p_local_xstream,
                                                  ABTI_thread *p_thread,
                                                  ABTI_thread *p_parent)
 {
+    ABTI_VERIF_EVENT(6, p_thread, p_parent, 0);
 #ifdef ABT_CONFIG_USE_DEBUG_LOG
     ABTI_log_debug_thread("finish", p_thread);
 #endif
@@ -103,6 +113,7 @@ static inline void ABTI_event_thread_finish_impl(ABTI_xstream *p_local_xstream,
 static inline void ABTI_event_thread_cancel_impl(ABTI_xstream *p_local_xstream,
                                                  ABTI_thread *p_thread)
 {
+    ABTI_VERIF_EVENT(7, p_thread, 0, 0);
 #ifdef ABT_CONFIG_USE_DEBUG_LOG
     ABTI_log_debug_thread("cancel", p_thread);
 #endif
@@ -118,6 +129,7 @@ ABTI_event_ythread_yield_impl(ABTI_xstream *p_local_xstream,
                               ABTI_ythread *p_ythread, ABTI_thread *p_parent,
                               ABT_sync_event_type sync_event_type, void *p_sync)
 {
+    ABTI_VERIF_EVENT(8, p_ythread, p_parent, 0);
 #ifdef ABT_CONFIG_USE_DEBUG_LOG
     ABTI_log_debug_thread("yield", &p_ythread->thread);
 #endif
@@ -133,6 +145,7 @@ static inline void ABTI_event_ythread_suspend_impl(
     ABTI_xstream *p_local_xstream, ABTI_ythread *p_ythread,
     ABTI_thread *p_parent, ABT_sync_event_type sync_event_type, void *p_sync)
 {
+    ABTI_VERIF_EVENT(9, p_ythread, p_parent, 0);
 #ifdef ABT_CONFIG_USE_DEBUG_LOG
     ABTI_log_debug_thread("suspend", &p_ythread->thread);
 #endif
@@ -148,6 +161,7 @@ static inline void ABTI_event_ythread_resume_impl(ABTI_local *p_local,
                                                   ABTI_ythread *p_ythread,
                                                   ABTI_thread *p_caller)
 {
+    ABTI_VERIF_EVENT(10, p_ythread, p_caller, 0);
 #ifdef ABT_CONFIG_USE_DEBUG_LOG
     ABTI_log_debug_thread("resume", &p_ythread->thread);
 #endif
